@@ -3,6 +3,7 @@ Lemmas/FrontAppend.lean — helper lemmas for C18-R4 (appending statements): eve
 up to address assignment treats a list `a ++ b` as `a` followed by `b`.
 -/
 import CoCoVerif.Lemmas.FrontInclude
+import CoCoVerif.Lemmas.EncodeResolve
 
 namespace CoCo.Asm
 open CoCo
@@ -229,12 +230,65 @@ def resolveExprCore (l' r' : Value) (op : Char) (mode : Mode) : R Value :=
     if l'.isAddress || r'.isAddress then .ok (.expr l' r' op mode true)
     else .error .other
 
-theorem resolve_expr_eq (t : SymTab) (l r : Value) (op : Char) (mode : Mode) (ae : Bool) :
-    (Value.expr l r op mode ae).resolve t =
-      match lookV t l, lookV t r with
+/-! `getSymF` (`Value.get_symbol` with fuel) and `symPost` (what `resolve` makes of the table entry of a symbol) are
+defined in `Lemmas/EncodeResolve.lean`, with `resolveF_zero`, `getSymF_none/_plain/_expr`, `resolveF_depth`. -/
+
+/-- `lookV` with `get_symbol` in place of the plain table lookup -/
+def lookF (fuel : Nat) (t : SymTab) (x : Value) : R Value :=
+  match x with
+  | .symbol name _ => getSymF fuel t name
+  | x => .ok x
+
+/-- bridge to `Lemmas/EncodeResolve.lean` -/
+theorem lookF_eq_lookStep (fuel : Nat) (t : SymTab) (x : Value) : lookF fuel t x = lookStep (getSymF fuel t) x := by
+  cases x <;> rfl
+
+theorem resolveF_symbol (fuel : Nat) (t : SymTab) (name : Str) (m : Mode) :
+    resolveF (fuel + 1) (.symbol name m) t =
+      match getSymF fuel t name with
+      | .error e => .error e
+      | .ok s => symPost s := by
+  rfl
+
+theorem resolveF_expr (fuel : Nat) (t : SymTab) (l r : Value) (op : Char) (mode : Mode) (ae : Bool) :
+    resolveF (fuel + 1) (.expr l r op mode ae) t =
+      match lookF fuel t l, lookF fuel t r with
       | .ok l', .ok r' => resolveExprCore l' r' op mode
       | _, _ => .error .other := by
   rfl
+
+theorem resolveF_other (fuel : Nat) (t : SymTab) (v : Value) (hs : ∀ n m, v ≠ .symbol n m)
+    (he : ∀ l r op m ae, v ≠ .expr l r op m ae) : resolveF (fuel + 1) v t = .ok v := by
+  cases v <;> first | rfl | exact absurd rfl (hs _ _) | exact absurd rfl (he _ _ _ _ _)
+
+theorem resolve_eq (v : Value) (t : SymTab) : v.resolve t = resolveF (t.length + 1) v t := rfl
+
+theorem resolve_symbol_eq (t : SymTab) (name : Str) (m : Mode) :
+    (Value.symbol name m).resolve t =
+      match getSymF t.length t name with
+      | .error e => .error e
+      | .ok s => symPost s := rfl
+
+/-- STATEMENT CHANGED in batch 4: the operands are looked up by `lookF t.length t` (`get_symbol`: an entry that is an
+EQU defined by an expression is evaluated first) where it used to be `lookV t` -/
+theorem resolve_expr_eq (t : SymTab) (l r : Value) (op : Char) (mode : Mode) (ae : Bool) :
+    (Value.expr l r op mode ae).resolve t =
+      match lookF t.length t l, lookF t.length t r with
+      | .ok l', .ok r' => resolveExprCore l' r' op mode
+      | _, _ => .error .other := by
+  rfl
+
+/-- a table without an EQU defined by an expression: `get_symbol` is the plain lookup -/
+theorem lookF_eq_lookV {t : SymTab} (ht : ∀ k s, t.get? k = some s → s.isExpression = false) (fuel : Nat)
+    (x : Value) : lookF fuel t x = lookV t x := by
+  cases x with
+  | symbol name m =>
+    unfold lookF lookV
+    dsimp only
+    cases hg : t.get? name with
+    | none => exact getSymF_none hg
+    | some s => exact getSymF_plain hg (ht _ _ hg)
+  | _ => rfl
 
 theorem lookV_mono {t t' : SymTab} (hle : SymTab.Le t t') {x y : Value} (h : lookV t x = .ok y) :
     lookV t' x = .ok y := by
@@ -247,24 +301,69 @@ theorem lookV_mono {t t' : SymTab} (hle : SymTab.Le t t') {x y : Value} (h : loo
     | some s => rw [hle _ _ hg]; rw [hg] at h; exact h
   | _ => exact h
 
-theorem Value.resolve_mono {t t' : SymTab} (hle : SymTab.Le t t') {v r : Value}
-    (h : v.resolve t = .ok r) : v.resolve t' = .ok r := by
+/-- one level of `resolveF` only uses the table through `getSymF` -/
+theorem resolveF_succ_transfer {t t' : SymTab} {n m : Nat}
+    (hsym : ∀ {name : Str} {s : Value}, getSymF n t name = .ok s → getSymF m t' name = .ok s)
+    {v r : Value} (h : resolveF (n + 1) v t = .ok r) : resolveF (m + 1) v t' = .ok r := by
+  have hlook : ∀ {x y : Value}, lookF n t x = .ok y → lookF m t' x = .ok y := by
+    intro x y hx
+    cases x with
+    | symbol name md => exact hsym hx
+    | _ => exact hx
   cases v with
-  | symbol name m =>
-    unfold Value.resolve at h ⊢
-    dsimp only at h ⊢
-    cases hg : t.get? name with
-    | none => rw [hg] at h; cases h
-    | some s => rw [hle _ _ hg]; rw [hg] at h; exact h
+  | symbol name md =>
+    rw [resolveF_symbol] at h ⊢
+    cases hs : getSymF n t name with
+    | error e => rw [hs] at h; cases h
+    | ok s => rw [hsym hs]; rw [hs] at h; exact h
   | expr l r' op mode ae =>
-    rw [resolve_expr_eq] at h ⊢
-    cases hl : lookV t l with
+    rw [resolveF_expr] at h ⊢
+    cases hl : lookF n t l with
     | error e => rw [hl] at h; cases h
     | ok l' =>
-      cases hr : lookV t r' with
+      cases hr : lookF n t r' with
       | error e => rw [hl, hr] at h; cases h
-      | ok r'' => rw [lookV_mono hle hl, lookV_mono hle hr]; rw [hl, hr] at h; exact h
+      | ok r'' => rw [hlook hl, hlook hr]; rw [hl, hr] at h; exact h
   | _ => exact h
+
+/-- a successful resolution stays the same with more fuel and a table that answers at least the same lookups -/
+theorem resolveF_mono_le {t t' : SymTab} (hle : SymTab.Le t t') : ∀ {n n' : Nat}, n ≤ n' → ∀ {v r : Value},
+    resolveF n v t = .ok r → resolveF n' v t' = .ok r := by
+  intro n
+  induction n with
+  | zero => intro n' _ v r h; rw [resolveF_zero] at h; cases h
+  | succ n ih =>
+    intro n' hn v r h
+    obtain ⟨m, rfl⟩ : ∃ m, n' = m + 1 := ⟨n' - 1, by omega⟩
+    refine resolveF_succ_transfer ?_ h
+    intro name s hs
+    unfold getSymF at hs ⊢
+    cases hg : t.get? name with
+    | none => rw [hg] at hs; cases hs
+    | some e =>
+      rw [hg] at hs
+      rw [hle _ _ hg]
+      dsimp only at hs ⊢
+      split at hs
+      · rename_i hc; rw [if_pos hc]; exact ih (by omega) hs
+      · rename_i hc; rw [if_neg hc]; exact hs
+
+/-- symbol resolution is monotone in the table (batch 4: the fuel of `resolve` is the length of the table, which may
+differ between `t` and `t'`; `resolveF_mono_le` carries the result over with the fuel of `t`, `resolveF_depth` — a chain
+of EQUs that can be evaluated has no cycle, so it is no longer than the table — brings the fuel to that of `t'`) -/
+theorem Value.resolve_mono {t t' : SymTab} (hle : SymTab.Le t t') {v r : Value}
+    (h : v.resolve t = .ok r) : v.resolve t' = .ok r :=
+  resolveF_depth t' _ v r (resolveF_mono_le hle (Nat.le_refl _) h)
+
+/-- `resolve` does not depend on the fuel once it succeeds (`resolveF_depth` with implicit arguments) -/
+theorem resolve_of_resolveF {t : SymTab} {n : Nat} {v r : Value} (h : resolveF n v t = .ok r) :
+    v.resolve t = .ok r :=
+  resolveF_depth t n v r h
+
+/-- a resolution that succeeds with some fuel succeeds with any fuel above the length of the table -/
+theorem resolveF_lower (L : Nat) (t : SymTab) (hL : t.length ≤ L) {n : Nat} {v r : Value}
+    (h : resolveF n v t = .ok r) : resolveF (L + 1) v t = .ok r :=
+  resolveF_mono (by omega) (resolve_of_resolveF h)
 
 def leftPost (t : SymTab) (v : Value) : R Value :=
   match v with
@@ -408,6 +507,7 @@ def layout (ss0 : List Stmt) : Outcome (SymTab × List Stmt) :=
       | some ss2 =>
         match pcrLoop (ss2.length + 1) ss2 with
         | .ok ss3 =>
+          if !orgOK ss3 false then .diag else
           match assignAddrs ss3 0 with
           | .ok ss4 => .ok (t, ss4)
           | .diag => .diag
@@ -421,11 +521,16 @@ def layout (ss0 : List Stmt) : Outcome (SymTab × List Stmt) :=
 def finish (t : SymTab) (ss4 : List Stmt) : Outcome Assembly :=
   match fixAll ss4 0 ss4 with
   | .ok ss5 =>
-    match finalSymTab ss5 t with
-    | .ok t' =>
-      let origin := ss5.foldl (fun o s => if s.row.isOrigin then s.pkg.address else o) Value.none
-      let name := ss5.foldl (fun o s => if s.row.isName then some s.operand.text else o) none
-      .ok { stmts := ss5, symtab := t', origin := origin, name := name }
+    match evalSyms ss5 t t with
+    | .ok t1 =>
+      match finalSymTab ss5 t1 with
+      | .ok t' =>
+        let origin := ss5.foldl (fun o s => if s.row.isOrigin then s.pkg.address else o) Value.none
+        let name := ss5.foldl (fun o s => if s.row.isName then some s.operand.text else o) none
+        .ok { stmts := ss5, symtab := t', origin := origin, name := name }
+      | .diag => .diag
+      | .internal => .internal
+      | .diverged => .diverged
     | .diag => .diag
     | .internal => .internal
     | .diverged => .diverged
@@ -455,6 +560,10 @@ theorem back_eq (ss0 : List Stmt) :
         cases pcrLoop (ss2.length + 1) ss2 with
         | ok ss3 =>
           dsimp only
+          cases orgOK ss3 false with
+          | false => rfl
+          | true =>
+          simp only [Bool.not_true, Bool.false_eq_true, if_false]
           cases assignAddrs ss3 0 <;> rfl
         | _ => rfl
 
@@ -463,9 +572,10 @@ def NoPcr (ss0 : List Stmt) : Prop :=
   ∀ t ss1 ss2, buildSymTab ss0 0 [] = some t → resolveAll t ss0 = some ss1 → translateAll ss1 = some ss2 →
     allFixed ss2 = true
 
-theorem layout_ok {ss0 : List Stmt} {t : SymTab} {ss4 : List Stmt} (h : layout ss0 = .ok (t, ss4)) :
+theorem layout_ok' {ss0 : List Stmt} {t : SymTab} {ss4 : List Stmt} (h : layout ss0 = .ok (t, ss4)) :
     ∃ ss1 ss2 ss3, buildSymTab ss0 0 [] = some t ∧ resolveAll t ss0 = some ss1 ∧
-      translateAll ss1 = some ss2 ∧ pcrLoop (ss2.length + 1) ss2 = .ok ss3 ∧ assignAddrs ss3 0 = .ok ss4 := by
+      translateAll ss1 = some ss2 ∧ pcrLoop (ss2.length + 1) ss2 = .ok ss3 ∧ orgOK ss3 false = true ∧
+      assignAddrs ss3 0 = .ok ss4 := by
   unfold layout at h
   cases h1 : buildSymTab ss0 0 [] with
   | none => rw [h1] at h; cases h
@@ -482,14 +592,25 @@ theorem layout_ok {ss0 : List Stmt} {t : SymTab} {ss4 : List Stmt} (h : layout s
         cases h4 : pcrLoop (ss2.length + 1) ss2 with
         | ok ss3 =>
           rw [h4] at h; dsimp only at h
+          cases hq : orgOK ss3 false with
+          | false => rw [hq] at h; simp at h
+          | true =>
+          rw [hq] at h
+          simp only [Bool.not_true, Bool.false_eq_true, if_false] at h
           cases h5 : assignAddrs ss3 0 with
           | ok ss4' =>
             rw [h5] at h
             simp only [Outcome.ok.injEq, Prod.mk.injEq] at h
             obtain ⟨rfl, rfl⟩ := h
-            exact ⟨ss1, ss2, ss3, rfl, h2, h3, h4, h5⟩
+            exact ⟨ss1, ss2, ss3, rfl, h2, h3, h4, hq, h5⟩
           | _ => rw [h5] at h; cases h
         | _ => rw [h4] at h; cases h
+
+theorem layout_ok {ss0 : List Stmt} {t : SymTab} {ss4 : List Stmt} (h : layout ss0 = .ok (t, ss4)) :
+    ∃ ss1 ss2 ss3, buildSymTab ss0 0 [] = some t ∧ resolveAll t ss0 = some ss1 ∧
+      translateAll ss1 = some ss2 ∧ pcrLoop (ss2.length + 1) ss2 = .ok ss3 ∧ assignAddrs ss3 0 = .ok ss4 := by
+  obtain ⟨ss1, ss2, ss3, h0, h1, h2, h3, _, h5⟩ := layout_ok' h
+  exact ⟨ss1, ss2, ss3, h0, h1, h2, h3, h5⟩
 
 /-- Prefix stability of the layout for programs without PCR statements: if `a ++ b` lays out and `a`
 alone lays out (no reference from `a` into `b`), the statements of `a` get the same sizes and addresses,
